@@ -82,6 +82,9 @@ type immResult struct {
 func checkImmutable(sc scen.Scenario, gs []gsym) (fails []immResult, nodes int, ran bool) {
 	prg, err := goja.Compile("c16.js", sc.Src, false)
 	if err != nil {
+		if sc.Long {
+			return nil, 0, false
+		}
 		return []immResult{{"harness|compile", err.Error()}}, 0, false
 	}
 	// warm-up with its OWN compiled program and its own values: lazily initialised process-wide tables are built
